@@ -39,6 +39,7 @@ fn run_case(seed: u64, iter: u64) -> Result<(usize, usize), String> {
     let mut bound_at: Vec<(Label, usize)> = Vec::new(); // label bound before instruction #idx
     let mut pending: Vec<(Label, usize)> = Vec::new(); // forward labels to bind before instruction #idx
     let mut pool = 0u64;
+    let mut tables: Vec<(usize, ConstPoolIdx, Vec<Label>, Label)> = Vec::new();
     for idx in 0..n {
         // bind forward labels due here
         let mut k = 0;
@@ -54,6 +55,23 @@ fn run_case(seed: u64, iter: u64) -> Result<(usize, usize), String> {
         let back = w.define_label();
         bound_at.push((back, idx));
         let fwd = w.create_label();
+        // now and then a jump table over labels bound earlier and labels still to be bound (Switch targets live in the constant pool)
+        if d.next() % 16 == 0 {
+            let nt = (d.next() % 5) as usize;
+            let mut targets = Vec::new();
+            for _ in 0..nt + 1 {
+                if d.next() % 2 == 0 && !bound_at.is_empty() {
+                    targets.push(bound_at[(d.next() % bound_at.len() as u64) as usize].0);
+                } else {
+                    let l = w.create_label();
+                    pending.push((l, idx + 1 + (d.next() % 7) as usize));
+                    targets.push(l);
+                }
+            }
+            let default = targets.pop().unwrap();
+            let cidx = w.add_const_jump_table(targets.clone(), default);
+            tables.push((idx, cidx, targets, default));
+        }
         let row = (d.next() % NROWS as u64) as usize;
         w.set_location(Location::new(1 + idx as u32, 1));
         let e = emit_row(row, &mut w, &mut d, fwd, back);
@@ -82,7 +100,16 @@ fn run_case(seed: u64, iter: u64) -> Result<(usize, usize), String> {
     }
     let start_of = |idx: usize| -> usize { if idx < n { got[idx].0 } else { code.len() } };
     let label_idx = |l: &Label| -> usize { bound_at.iter().find(|(x, _)| x == l).map(|(_, i)| *i).unwrap() };
+    let mut ti = 0usize;
     for idx in 0..n {
+        // jump tables added before instruction #idx took constant-pool slots
+        while ti < tables.len() && tables[ti].0 <= idx {
+            if tables[ti].1 .0 as u64 != pool {
+                return Err(format!("jump table added before instruction #{} got constant-pool index {} instead of {}", idx, tables[ti].1 .0, pool));
+            }
+            pool += 1;
+            ti += 1;
+        }
         let (name, vals) = wire_of(&got[idx].2);
         let (ename, evals): (&str, Vec<u64>) = match &exps[idx] {
             Exp::Plain(nm, v) => (*nm, v.clone()),
@@ -109,6 +136,18 @@ fn run_case(seed: u64, iter: u64) -> Result<(usize, usize), String> {
         let opb: u8 = got[idx].1.into();
         if BytecodeOpcode::try_from(opb).ok().map(|o| { let b: u8 = o.into(); b }) != Some(opb) {
             return Err(format!("opcode byte {} does not convert back", opb));
+        }
+    }
+    for (at, cidx, targets, default) in tables.iter() {
+        match body.const_pool(*cidx) {
+            ConstPoolEntry::JumpTable { targets: got_t, default_target } => {
+                let want: Vec<u32> = targets.iter().map(|l| start_of(label_idx(l)) as u32).collect();
+                let want_d = start_of(label_idx(default)) as u32;
+                if *got_t != want || *default_target != want_d {
+                    return Err(format!("jump table added before instruction #{}: targets {:?} default {} but the labels are bound at {:?} / {}", at, got_t, default_target, want, want_d));
+                }
+            }
+            _ => return Err(format!("constant-pool entry {} of a jump table is not a JumpTable after generate()", cidx.0)),
         }
     }
     Ok((n, code.len()))
